@@ -110,7 +110,7 @@ CLAIMED.update({
                 "reference store, and whole programs are run with the cache on and off in both modes.",
         "note": NOTE_COMMON + "Program level: Props/C03Programs.v proves that single-cycle and five-stage runs with any data cache and any "
                 "instruction cache agree with the run on flat memory (registers, pc, output, exit code, counters, logical memory, latches, "
-                "retire trace) up to the first access the cache rejects (single_run_lifts, pipe_run_lifts, program_cache_on_off_*); block_bits <= 12 assumed.",
+                "retire trace) up to the first access the cache rejects (single_run_lifts, pipe_run_lifts, program_cache_on_off_*). All theorems assume block_bits <= 12; beyond that the property is FALSE of the code (known finding D9, recorded: the first block overlaps the unmapped region below 0x4000 and every access into it fails).",
         "technique": TECH,
     },
     "C12": {
